@@ -22,6 +22,7 @@ META = {
     'technique': 'static analysis: lockset / check-then-act detection over an effect inventory restricted to the print '
                  'cone (call-graph reachability), must-precede ordering by guard facts and statement order',
 }
+META['text'] += ' Round 5: (a) no Python-level loop over a shared dict / set that the printing pipeline resizes; (c) the immutability model includes the scaled documents.'
 
 
 def run(repo, rep):
